@@ -199,7 +199,7 @@ pub(super) fn scenarios(rng: &mut Rng) -> Vec<(&'static str, Vec<Step>)> {
 
 pub fn sched(out: &mut Out, count: u64) {
     // Timed partial writes take the last eighth of the budget.
-    let n_wt = (count / 8).min(WT_GRID as u64);
+    let n_wt = (count / 6).min(WT_GRID as u64);
     let count = count - n_wt;
     for (j, g) in stride(WT_GRID, n_wt as usize).into_iter().enumerate() {
         let (d, tags, _) = wtimed_program(out.rng(5000 + g as u64), g, None);
@@ -648,7 +648,7 @@ pub fn twin_chunk(out: &mut Out, count: u64) {
         let name = out.base(twin);
         if twin % 8 == 5 {
             // Write-side timed twin: partial write, tick past the keep-alive send deadline.
-            let g = (twin / 8 * 13) as usize % WT_GRID;
+            let g = (twin / 8 * 37) as usize % WT_GRID;
             let (b, tags, tick) = wtimed_program(out.rng(twin), g, None);
             let (a, _, _) = wtimed_program(out.rng(twin), g, Some(tick));
             out.emit(twin, ".a", &format!("twin={name} role=a wtimed=1 {tags}"), &a);
@@ -720,14 +720,24 @@ pub fn twin_chunk(out: &mut Out, count: u64) {
 // -------------------------------------------------------------------------------------------
 // Timed partial writes, flush twins, zero-length packets.
 
-/// operation (3) x accepted bytes (1, 4, len-1) x overshoot (0, 1 us, 250 ms) x keep-alive (1..4 s).
-pub(super) const WT_GRID: usize = 3 * 3 * 3 * 4;
+/// operation (3) x accepted bytes (3 choices) x overshoot (0, 1 us, 250 ms) x keep-alive (1..4 s)
+/// x order (5).
+pub(super) const WT_GRID: usize = 3 * 3 * 3 * 4 * 5;
 
-/// A packet whose write is accepted only partially, then a `tick` past the keep-alive send
-/// deadline, then `go` and a drain. With `whole` the same tick follows a whole write (a-run).
-/// Returns the program, its tags and the tick used.
+const WT_ORDERS: [&str; 5] = [
+    "partial-tick-go",
+    "tick-then-partials",
+    "partial-tick-partial",
+    "tick-then-partials-cancel",
+    "partial-tick-partial-cancel",
+];
+
+/// A packet whose write is accepted only partially around a `tick` past the keep-alive send
+/// deadline, in one of five orders, then `go` and a drain. With `whole` the same tick surrounds
+/// whole writes (a-run). Returns the program, its tags and the tick used.
 pub(super) fn wtimed_program(rng: Rng, g: usize, whole: Option<u64>) -> (Drv, String, u64) {
-    let (op, k_sel, over, ka) = (g % 3, g / 3 % 3, [0u64, 1, 250_000][g / 9 % 3], 1 + (g / 27) as u16);
+    let (op, k_sel, over, ka) = (g % 3, g / 3 % 3, [0u64, 1, 250_000][g / 9 % 3], 1 + (g / 27 % 4) as u16);
+    let order = WT_ORDERS[g / 108 % 5];
     let mut cfg = CfgSpec::basic(128, 512);
     cfg.ka = ka;
     let mut d = Drv::new(&cfg, rng);
@@ -745,26 +755,61 @@ pub(super) fn wtimed_program(rng: Rng, g: usize, whole: Option<u64>) -> (Drv, St
             until_write(&mut d);
         }
     }
+    // The first byte of the packet waits for its write decision.
     let len = [15usize, 11, 5][op];
-    let k = [1, 4, len - 1][k_sel];
+    let (k1, k2) = [(1usize, 2usize), (4, 1), (len - 1, 1)][k_sel];
+    let (k1, k2) = (k1.min(len - 2), k2);
     let deadline = d.interp().verif_state().next_ping_us.unwrap_or(0) + over;
-    let tick = match whole {
-        Some(t) => {
-            d.go();
-            d.tick(t);
-            t
-        }
-        None => {
+    let partial = |d: &mut Drv, k: usize| {
+        if d.suspended() && whole.is_none() {
             d.x(&format!("d {k}"));
-            let now = d.interp().now_us();
-            let t = deadline.saturating_sub(now).max(1);
-            d.tick(t);
-            t
         }
     };
+    let mut tick_used = 0;
+    let mut do_tick = |d: &mut Drv| {
+        let t = match whole {
+            Some(t) => t,
+            None => deadline.saturating_sub(d.interp().now_us()).max(1),
+        };
+        d.tick(t);
+        tick_used = t;
+    };
+    let cancel = order.ends_with("-cancel");
+    match order {
+        "partial-tick-go" => {
+            if whole.is_some() {
+                d.go();
+            }
+            partial(&mut d, [1, 4, len - 1][k_sel]);
+            do_tick(&mut d);
+        }
+        "tick-then-partials" | "tick-then-partials-cancel" => {
+            // No decision yet: the clock moves first, then two partial acceptances.
+            do_tick(&mut d);
+            if cancel {
+                d.x("cancel");
+                d.x("poll");
+            }
+            partial(&mut d, k1);
+            partial(&mut d, k2);
+        }
+        _ => {
+            if whole.is_some() {
+                d.go();
+            }
+            partial(&mut d, k1);
+            do_tick(&mut d);
+            if cancel {
+                d.x("cancel");
+                d.x("poll");
+            }
+            partial(&mut d, k2);
+        }
+    }
     d.go();
     d.drain();
-    (d, format!("op={name} accepted={k} over={over} ka={ka}"), tick)
+    let tags = format!("op={name} order={order} k={k1},{k2} over={over} ka={ka}");
+    (d, tags, tick_used)
 }
 
 fn flush_twin(rng: Rng, kind: &str, ka: u16, cancel: bool) -> Drv {
